@@ -271,6 +271,14 @@ def proof_coverage(prop, res, extra_cov):
         res.violation("lean-audit", f"proof audit failed: {d}/{n} theorems discharged with allowed axioms; forbidden tokens: {hits[:5]}",
                       {"kind": "lean-audit", "theorem_or_tie": [t for t in registry().get(prop, {}).get("theorems", []) if set(detail.get(t, ['?'])) - ALLOWED_AXIOMS or t not in detail],
                        "log": log[-3000:]}, found=False)
+    if res.tier == "thorough" and mods:
+        # independent re-check of the compiled proofs by the toolchain's stand-alone kernel checker
+        with Lock("lake"):
+            rc, out = run(["lake", "env", "leanchecker"] + list(mods), cwd=LEAN, timeout=3000)
+        cov["leanchecker"] = {"modules": list(mods), "exit": rc}
+        if rc != 0:
+            res.violation("lean-audit", "leanchecker rejected the compiled proofs: " + out[-600:],
+                          {"kind": "lean-audit", "theorem_or_tie": "lake env leanchecker " + " ".join(mods), "log": out[-3000:]}, found=False)
     cov.update(extra_cov)
     return cov, True
 
